@@ -464,3 +464,111 @@ pub fn stmt_has_reg_in_diff_switch(s: &Stmt) -> bool {
     }
     stmt_exprs(s).into_iter().any(|e| walk(e, false))
 }
+
+// =============================================================================
+// M-typer for statements: the documented rules (operand types per operator class, int-only conditions
+// and counters, matching assignment and declaration types, call arity and parameter types).
+
+pub fn sig_param_types(sig: &str) -> Vec<Ty> {
+    // only the simple letters are used by the generated languages
+    sig.chars().filter(|c| *c != '_' && *c != '-').map(|c| if c == 'f' { Ty::Float } else if matches!(c, 'z' | 'm' | 'p') { Ty::Str } else { Ty::Int }).collect()
+}
+
+fn cond_ty(e: &Expr) -> Result<(), TypeErr> {
+    let t = e.ty()?;
+    if t != Ty::Int { return Err(TypeErr("condition is not an int".into())); }
+    Ok(())
+}
+
+pub fn check_body(body: &[SNode], sigs: &std::collections::BTreeMap<u16, String>) -> Result<(), TypeErr> {
+    for s in body {
+        match &s.kind {
+            Stmt::Call { opcode, args, .. } => {
+                let sig = sigs.get(opcode).ok_or_else(|| TypeErr(format!("no signature for {}", opcode)))?;
+                let params = sig_param_types(sig);
+                if params.len() != args.len() { return Err(TypeErr(format!("arity: {} args for {} params", args.len(), params.len()))); }
+                for (a, p) in args.iter().zip(params.iter()) { let t = a.ty()?; if t != *p { return Err(TypeErr("argument type".into())); } }
+            }
+            Stmt::Assign { var, op, rhs } => {
+                let tv = var_use_ty(var)?;
+                let tr = rhs.ty()?;
+                if op == "=" { if tv != tr { return Err(TypeErr("assignment types differ".into())); } }
+                else {
+                    let b = &op[..op.len() - 1];
+                    if is_arith(b) { if tv == Ty::Str { return Err(TypeErr("string arithmetic".into())); } }
+                    else if tv != Ty::Int { return Err(TypeErr("int-only assignment operator".into())); }
+                    if tv != tr { return Err(TypeErr("assignment types differ".into())); }
+                }
+            }
+            Stmt::Decl { ty, vars } => { for (_, e) in vars { if let Some(e) = e { if e.ty()? != *ty { return Err(TypeErr("declaration type".into())); } } } }
+            Stmt::ConstDecl { ty, vars } => { for (_, e) in vars { if e.ty()? != *ty { return Err(TypeErr("const declaration type".into())); } } }
+            Stmt::If { arms, els } => { for (_, c, b) in arms { cond_ty(c)?; check_body(b, sigs)?; } if let Some(e) = els { check_body(e, sigs)?; } }
+            Stmt::While { cond, body } | Stmt::DoWhile { cond, body } => { cond_ty(cond)?; check_body(body, sigs)?; }
+            Stmt::Times { clobber, count, body } => {
+                if count.ty()? != Ty::Int { return Err(TypeErr("times count not int".into())); }
+                if let Some(c) = clobber { if var_use_ty(c)? != Ty::Int { return Err(TypeErr("times clobber not int".into())); } }
+                check_body(body, sigs)?;
+            }
+            Stmt::Loop { body } | Stmt::Block(body) => check_body(body, sigs)?,
+            Stmt::CondGoto { cond, .. } => cond_ty(cond)?,
+            _ => {}
+        }
+    }
+    Ok(())
+}
+
+// =============================================================================
+// Tree addressing for mutators: visit every expression node mutably, in a fixed order.
+
+pub fn for_each_expr_mut(body: &mut [SNode], depth: usize, f: &mut dyn FnMut(&mut Expr, &ExprSite)) {
+    for s in body.iter_mut() {
+        let kind_name = stmt_kind_name(&s.kind);
+        match &mut s.kind {
+            Stmt::Call { args, .. } => for a in args.iter_mut() { walk_expr_mut(a, &ExprSite { stmt: kind_name, role: "arg", block_depth: depth, expr_depth: 0 }, f); },
+            Stmt::Assign { rhs, .. } => walk_expr_mut(rhs, &ExprSite { stmt: kind_name, role: "rhs", block_depth: depth, expr_depth: 0 }, f),
+            Stmt::Decl { vars, .. } => for (_, e) in vars.iter_mut() { if let Some(e) = e { walk_expr_mut(e, &ExprSite { stmt: kind_name, role: "init", block_depth: depth, expr_depth: 0 }, f); } },
+            Stmt::ConstDecl { vars, .. } => for (_, e) in vars.iter_mut() { walk_expr_mut(e, &ExprSite { stmt: kind_name, role: "const", block_depth: depth, expr_depth: 0 }, f); },
+            Stmt::If { arms, els } => {
+                for (_, c, b) in arms.iter_mut() { walk_expr_mut(c, &ExprSite { stmt: kind_name, role: "cond", block_depth: depth, expr_depth: 0 }, f); for_each_expr_mut(b, depth + 1, f); }
+                if let Some(e) = els { for_each_expr_mut(e, depth + 1, f); }
+            }
+            Stmt::While { cond, body } | Stmt::DoWhile { cond, body } => { walk_expr_mut(cond, &ExprSite { stmt: kind_name, role: "cond", block_depth: depth, expr_depth: 0 }, f); for_each_expr_mut(body, depth + 1, f); }
+            Stmt::Times { count, body, .. } => { walk_expr_mut(count, &ExprSite { stmt: kind_name, role: "count", block_depth: depth, expr_depth: 0 }, f); for_each_expr_mut(body, depth + 1, f); }
+            Stmt::Loop { body } => for_each_expr_mut(body, depth + 1, f),
+            Stmt::Block(body) => for_each_expr_mut_in_free_block(body, depth + 1, f),
+            Stmt::CondGoto { cond, .. } => walk_expr_mut(cond, &ExprSite { stmt: kind_name, role: "cond", block_depth: depth, expr_depth: 0 }, f),
+            _ => {}
+        }
+    }
+}
+
+fn for_each_expr_mut_in_free_block(body: &mut [SNode], depth: usize, f: &mut dyn FnMut(&mut Expr, &ExprSite)) {
+    // same walk, but the site records that it lies inside a free-standing block
+    let mut g = |e: &mut Expr, site: &ExprSite| { let s2 = ExprSite { stmt: site.stmt, role: site.role, block_depth: site.block_depth | 0x100, expr_depth: site.expr_depth }; f(e, &s2) };
+    for_each_expr_mut(body, depth, &mut g);
+}
+
+#[derive(Clone, Debug)]
+pub struct ExprSite { pub stmt: &'static str, pub role: &'static str, pub block_depth: usize, pub expr_depth: usize }
+
+impl ExprSite {
+    pub fn in_free_block(&self) -> bool { self.block_depth & 0x100 != 0 }
+    pub fn depth(&self) -> usize { self.block_depth & 0xff }
+}
+
+pub fn stmt_kind_name(s: &Stmt) -> &'static str {
+    match s { Stmt::Call { .. } => "call", Stmt::Assign { .. } => "assign", Stmt::Decl { .. } => "decl", Stmt::ConstDecl { .. } => "const", Stmt::If { .. } => "if", Stmt::While { .. } => "while",
+              Stmt::DoWhile { .. } => "dowhile", Stmt::Times { .. } => "times", Stmt::Loop { .. } => "loop", Stmt::Block(_) => "block", Stmt::CondGoto { .. } => "condgoto", _ => "other" }
+}
+
+fn walk_expr_mut(e: &mut Expr, site: &ExprSite, f: &mut dyn FnMut(&mut Expr, &ExprSite)) {
+    f(e, site);
+    let sub = ExprSite { stmt: site.stmt, role: site.role, block_depth: site.block_depth, expr_depth: site.expr_depth + 1 };
+    match e {
+        Expr::Bin(_, a, b) => { walk_expr_mut(a, &sub, f); walk_expr_mut(b, &sub, f); }
+        Expr::Un(_, a) => walk_expr_mut(a, &sub, f),
+        Expr::Ternary(c, a, b) => { walk_expr_mut(c, &sub, f); walk_expr_mut(a, &sub, f); walk_expr_mut(b, &sub, f); }
+        Expr::DiffSwitch(cs) => for c in cs.iter_mut().flatten() { walk_expr_mut(c, &sub, f); },
+        _ => {}
+    }
+}
